@@ -107,6 +107,8 @@ package types
 //@   loop 1 invariant [step] i >= 0 && i % 100 == 0 && idsResult != nil && i <= len(idsResult.IDs) + 99
 //@   loop 1 invariant [chunk] get.count == 1 ==> get.arg2 == idsResult.IDs[iter(i):min(iter(i) + 100, len(idsResult.IDs))] && i == iter(i) + 100 && get.res1 == nil
 //@   loop 1 invariant [one-get] get.count <= 1
+//@   loop 1 invariant [blobs-follow-ids] len(blobs) == min(i, len(idsResult.IDs))
+//@   ensures [aligned] res.Code == coreda.StatusSuccess ==> len(res.Data) == len(res.IDs)
 
 // ---- C12: protobuf conversions ----------------------------------------------------------------
 // PbHdrOf(p): the header fields carried by a *pb.Header (nil Version reads as zero).
